@@ -1,3 +1,185 @@
-/-! # C16 — property theorems (stub: nothing stated yet) -/
+import SR.Proofs.Orl
+/-! # C16 — the ordered reliable link delivers every message exactly once, in order
+
+Statement (properties.jsonl): between two link-wrapped actors that do not restart, over a network that may
+drop, duplicate and reorder messages, the receiving actor is handed the sender's messages exactly once and in
+the order they were sent: at every reachable state the sequence handed over is a prefix of the sequence sent
+to that peer.  A message is never acknowledged and discarded before it was handed over, so once all
+retransmissions are acknowledged the two sequences are equal.
+
+Model: `SR.Orl` (lean/SR/Actor/Orl.lean), the code as it is after the F8 repair.  All theorems quantify over
+* every wrapped actor `W` (arbitrary functions, including ones that ignore messages = the no-op path, and
+  ones that leave their state borrowed but emit sends),
+* every number of actors `n` and every ordered pair `(s, d)` of them (also `s = d`, also `d ≥ n`),
+* every finite sequence `ls` of machine steps from the initial world: deliveries of ANY in-flight packet
+  (reordering), drops (loss), duplications, resend timers — `run … = some st` says the sequence was
+  executable (packets delivered were in flight; no handler hit one of the `todo!()`s, which are rejected
+  inputs: `SetTimer`/`CancelTimer`/`ChooseRandom` from a wrapped actor).
+Restarts are excluded by the property and do not exist in the machine.
+
+Ghost logs: `msgsFrom (st.nodes d) s` = the messages for which the wrapped actor of `d` was called with
+source `s`, in call order (a message the wrapped actor ignores is still handed over); `seqsFrom` = their
+sequencers; `sentTo (st.nodes s) d` = the messages the wrapped actor of `s` sent to `d`, in order.
+-/
 namespace SR.C16
+open SR.Orl
+
+variable {μ σ : Type} [DecidableEq μ]
+
+/-- **Prefix, full strength**: at every reachable state, for every ordered pair, what was handed over is a
+prefix of what was sent — under loss, duplication and arbitrary reordering. -/
+theorem C16_prefix (W : Wrapped μ σ) (n : Nat) (ls : List (Label μ)) (st0 st : World μ σ)
+    (hi : init W n = some st0) (hr : run W n st0 ls = some st) (s d : Id) :
+    msgsFrom (st.nodes d) s <+: sentTo (st.nodes s) d := by
+  have inv := reach_inv W n ⟨st0, ls, hi, hr⟩
+  rw [inv.msgs s d]
+  exact List.take_prefix _ _
+
+/-- **Exactly once**: the sequencers handed over from `s` are exactly `1, 2, …, k` in this order — none
+twice, none skipped — and the message handed over with sequencer `q` is the `q`-th message sent. -/
+theorem C16_no_redelivery (W : Wrapped μ σ) (n : Nat) (ls : List (Label μ)) (st0 st : World μ σ)
+    (hi : init W n = some st0) (hr : run W n st0 ls = some st) (s d : Id) :
+    seqsFrom (st.nodes d) s = List.range' 1 (msgsFrom (st.nodes d) s).length ∧
+    (seqsFrom (st.nodes d) s).Nodup ∧
+    ∀ q m, (q, m) ∈ handedFrom (st.nodes d) s → 1 ≤ q ∧ (sentTo (st.nodes s) d)[q - 1]? = some m := by
+  have inv := reach_inv W n ⟨st0, ls, hi, hr⟩
+  have hlen : (msgsFrom (st.nodes d) s).length = getD (st.nodes d).lastDel s 0 := by
+    rw [inv.msgs s d, List.length_take]; exact Nat.min_eq_left (inv.le s d)
+  have hseq : seqsFrom (st.nodes d) s = List.range' 1 (msgsFrom (st.nodes d) s).length := by
+    rw [hlen]; exact inv.seqs s d
+  refine ⟨hseq, by rw [hseq]; exact List.nodup_range', ?_⟩
+  intro q m hm
+  obtain ⟨i, hi', hget⟩ := List.getElem_of_mem hm
+  have h1 : (seqsFrom (st.nodes d) s)[i]? = some q := by simp [seqsFrom, hi', hget]
+  have h2 : (msgsFrom (st.nodes d) s)[i]? = some m := by simp [msgsFrom, hi', hget]
+  have hi2 : i < getD (st.nodes d).lastDel s 0 := by
+    have : i < (msgsFrom (st.nodes d) s).length := by simpa [msgsFrom] using hi'
+    omega
+  rw [inv.seqs s d, List.getElem?_range' hi2] at h1
+  rw [inv.msgs s d, List.getElem?_take_of_lt hi2] at h2
+  have hq : q = 1 + i := by simpa using h1.symm
+  subst hq
+  exact ⟨by omega, by simpa using h2⟩
+
+/-- **No early acknowledgement (in flight)**: whenever an `Ack(q)` from `d` to `s` is in the network — in
+particular right after it was sent — message `q` of `s` has been handed to the wrapped actor of `d` (which
+may have ignored it), and it is the `q`-th message `s` sent to `d`. -/
+theorem C16_no_early_ack (W : Wrapped μ σ) (n : Nat) (ls : List (Label μ)) (st0 st : World μ σ)
+    (hi : init W n = some st0) (hr : run W n st0 ls = some st) (s d : Id) (q : Nat)
+    (hack : (⟨d, s, Env.ack q⟩ : Packet μ) ∈ st.net) :
+    ∃ m, (q, m) ∈ handedFrom (st.nodes d) s ∧ (sentTo (st.nodes s) d)[q - 1]? = some m := by
+  have inv := reach_inv W n ⟨st0, ls, hi, hr⟩
+  obtain ⟨h1, h2⟩ := inv.ack s d q hack
+  have hq : q ∈ seqsFrom (st.nodes d) s := by
+    rw [inv.seqs s d]; exact List.mem_range'_1.mpr ⟨h1, by omega⟩
+  obtain ⟨⟨q', m⟩, hmem, rfl⟩ := List.mem_map.mp hq
+  exact ⟨m, hmem, ((C16_no_redelivery W n ls st0 st hi hr s d).2.2 _ m hmem).2⟩
+
+/-- **No early acknowledgement (processed)**: a message that `s` sent to `d` and no longer retransmits (its
+acknowledgement was processed) has been handed to the wrapped actor of `d`. -/
+theorem C16_no_early_ack_processed (W : Wrapped μ σ) (n : Nat) (ls : List (Label μ)) (st0 st : World μ σ)
+    (hi : init W n = some st0) (hr : run W n st0 ls = some st) (s d : Id) (q : Nat)
+    (hq1 : 1 ≤ q) (hq2 : q ≤ (sentTo (st.nodes s) d).length)
+    (hnp : ∀ m, ((d, q), m) ∉ (st.nodes s).pending) :
+    ∃ m, (q, m) ∈ handedFrom (st.nodes d) s ∧ (sentTo (st.nodes s) d)[q - 1]? = some m := by
+  have inv := reach_inv W n ⟨st0, ls, hi, hr⟩
+  have h2 := inv.done s d q hq1 hq2 hnp
+  have hq : q ∈ seqsFrom (st.nodes d) s := by
+    rw [inv.seqs s d]; exact List.mem_range'_1.mpr ⟨hq1, by omega⟩
+  obtain ⟨⟨q', m⟩, hmem, rfl⟩ := List.mem_map.mp hq
+  exact ⟨m, hmem, ((C16_no_redelivery W n ls st0 st hi hr s d).2.2 _ m hmem).2⟩
+
+/-- **Complete once acknowledged** (per destination, which is stronger than the statement's "all
+retransmissions acknowledged"): if `s` retransmits nothing to `d` any more, `d` was handed exactly what `s`
+sent to it. -/
+theorem C16_complete_when_acked (W : Wrapped μ σ) (n : Nat) (ls : List (Label μ)) (st0 st : World μ σ)
+    (hi : init W n = some st0) (hr : run W n st0 ls = some st) (s d : Id)
+    (hnp : ∀ q m, ((d, q), m) ∉ (st.nodes s).pending) :
+    msgsFrom (st.nodes d) s = sentTo (st.nodes s) d := by
+  have inv := reach_inv W n ⟨st0, ls, hi, hr⟩
+  rw [inv.msgs s d]
+  apply List.take_of_length_le
+  by_cases h0 : (sentTo (st.nodes s) d).length = 0
+  · omega
+  · exact inv.done s d _ (by omega) (Nat.le_refl _) (hnp _)
+
+/-- the statement's own wording: nothing at all awaits an acknowledgement at `s` -/
+theorem C16_complete_when_all_acked (W : Wrapped μ σ) (n : Nat) (ls : List (Label μ)) (st0 st : World μ σ)
+    (hi : init W n = some st0) (hr : run W n st0 ls = some st) (s : Id)
+    (hnp : (st.nodes s).pending = []) (d : Id) :
+    msgsFrom (st.nodes d) s = sentTo (st.nodes s) d :=
+  C16_complete_when_acked W n ls st0 st hi hr s d (by simp [hnp])
+
+/-- **The same for `ActorModel`**: every state the real checker can reach for an ORL-wrapped system — over
+the duplicating, the non-duplicating and the ordered network, lossy or not, whatever actions are taken — is
+reachable in the protocol machine (each `next_state` is a short run: `implNext`), hence satisfies all of
+the above.  `implNext` is what the correspondence check compares with the crate at every explored
+(state, action). -/
+theorem C16_actor_model_states_are_machine_states (W : Wrapped μ σ) (n : Nat) (kind : Kind)
+    (st : World μ σ) (h : ImplReach W n kind st) : Reach W n st := by
+  induction h with
+  | init hi => exact ⟨_, [], hi, rfl⟩
+  | next a _ hn ih =>
+    obtain ⟨ls, hr⟩ := implNext_run W n kind _ _ a hn
+    exact reach_run W n ih ls hr
+
+theorem C16_prefix_actor_model (W : Wrapped μ σ) (n : Nat) (kind : Kind) (st : World μ σ)
+    (h : ImplReach W n kind st) (s d : Id) : msgsFrom (st.nodes d) s <+: sentTo (st.nodes s) d := by
+  obtain ⟨st0, ls, hi, hr⟩ := C16_actor_model_states_are_machine_states W n kind st h
+  exact C16_prefix W n ls st0 st hi hr s d
+
+/-! ## Non-vacuity: a concrete three-message run with reordering, duplication, loss and an ignored message
+
+Actor 0 sends 7, 8, 9 to actor 1 from `on_start`; actor 1 logs what it is handed, except 8, which it ignores
+(state borrowed, no output: the no-op path), and answers 9 with 5.  Schedule: `Deliver(3,9)` is duplicated
+and overtakes the others (not handed, not ack'ed), `Deliver(2,8)` overtakes `Deliver(1,7)`, 7 is handed
+over, the network loses the `Ack(1)`, the timer resends all three, the duplicate 7 is ack'ed again and not
+handed over again, 8 is handed over (and ignored), 9 is handed over (the reply 5 goes out), the three acks
+arrive. -/
+
+def exW : Wrapped Nat (List Nat) where
+  onStart := fun i => ([], if i = 0 then [WCmd.send 1 7, WCmd.send 1 8, WCmd.send 1 9] else [])
+  onMsg := fun _ st _ m =>
+    if m = 8 then (none, []) else (some (st ++ [m]), if m = 9 then [WCmd.send 0 5] else [])
+
+def exRun : List (Label Nat) :=
+  [ Label.dup ⟨0, 1, Env.deliver 3 9⟩,
+    Label.deliver ⟨0, 1, Env.deliver 3 9⟩,      -- overtook 1 and 2: consumed, not handed, not ack'ed
+    Label.deliver ⟨0, 1, Env.deliver 2 8⟩,      -- overtook 1
+    Label.deliver ⟨0, 1, Env.deliver 1 7⟩,      -- handed over, Ack(1)
+    Label.drop ⟨1, 0, Env.ack 1⟩,               -- the ack is lost
+    Label.timeout 0,                            -- resend 1, 2, 3
+    Label.deliver ⟨0, 1, Env.deliver 1 7⟩,      -- duplicate: ack'ed again, not handed over again
+    Label.deliver ⟨0, 1, Env.deliver 3 9⟩,      -- still too early (the second copy)
+    Label.deliver ⟨0, 1, Env.deliver 2 8⟩,      -- handed over; the wrapped actor ignores it; Ack(2)
+    Label.deliver ⟨0, 1, Env.deliver 3 9⟩,      -- handed over; reply 5 is sent with sequencer 1; Ack(3)
+    Label.deliver ⟨1, 0, Env.ack 2⟩,
+    Label.deliver ⟨1, 0, Env.ack 3⟩,
+    Label.deliver ⟨1, 0, Env.ack 1⟩ ]
+
+/-- what is observed of a world in the examples -/
+def exView (st : World Nat (List Nat)) :=
+  (msgsFrom (st.nodes 1) 0, seqsFrom (st.nodes 1) 0, sentTo (st.nodes 0) 1, (st.nodes 1).wrapped,
+   (st.nodes 0).pending, st.net)
+
+/-- the run is executable and ends with everything handed over exactly once, in order, nothing pending at
+the sender, the reply still in flight (so the hypotheses of all theorems above are satisfiable) -/
+example : ((init exW 2).bind (fun st0 => run exW 2 st0 exRun)).map exView =
+    some ([7, 8, 9], [1, 2, 3], [7, 8, 9], [7, 9], [], [⟨1, 0, Env.deliver 1 5⟩]) := by rfl
+
+/-- in the middle of it (after the first seven steps) the handed sequence is a proper prefix and an `Ack` is
+in flight -/
+example : ((init exW 2).bind (fun st0 => run exW 2 st0 (exRun.take 7))).map exView =
+    some ([7], [1], [7, 8, 9], [7], [((1, 3), 9), ((1, 2), 8), ((1, 1), 7)],
+      [⟨0, 1, Env.deliver 3 9⟩, ⟨0, 1, Env.deliver 3 9⟩, ⟨0, 1, Env.deliver 2 8⟩, ⟨1, 0, Env.ack 1⟩]) := by rfl
+
+/-- the F8 schedule (`Deliver(2,·)` overtakes `Deliver(1,·)`) no longer hands anything over -/
+example : ((init exW 2).bind (fun st0 => run exW 2 st0 [Label.deliver ⟨0, 1, Env.deliver 2 8⟩])).map exView =
+    some ([], [], [7, 8, 9], [], [((1, 3), 9), ((1, 2), 8), ((1, 1), 7)],
+      [⟨0, 1, Env.deliver 1 7⟩, ⟨0, 1, Env.deliver 3 9⟩]) := by rfl
+
+/-- a handler that reaches one of the link's `todo!()`s makes the step (and `init`) undefined -/
+example : (init ({ exW with onStart := fun _ => ([], [WCmd.unsupported]) } : Wrapped Nat (List Nat)) 2).isNone = true := by
+  decide
+
 end SR.C16
